@@ -138,15 +138,17 @@ CLAIMED = {
  "C02": dict(
    text="spec/Lineage.tla models registry, config, the per-context plugin cache exactly as the code keys it (context hash = config + "
         "registered versions), lineage keys and shared storage; TLC explores all histories up to a bound over {set_config, register "
-        "(class variants), new_context, get, key_for} and checks NoStaleRead (a get returns what a brand-new context would compute), "
+        "(class variants), new_context, set fuzzy_for / fuzzy_for_options, get, key_for} and checks NoStaleRead (a get returns what a "
+        "brand-new context would compute), FuzzyAccepts (under fuzzy matching stored data is accepted exactly when its lineage differs "
+        "only in the fuzzy parts, exact match preferred), NothingWrittenUnderFuzzy, "
         "KeyIsLineage and the static key laws (tracked option / version / class move exactly the type and its descendants, "
         "untracked options move nothing); the protocol as found violates NoStaleRead. Histories (all get-change-get shapes + seeded "
         "random ones) run on real Contexts sharing a DataDirectory with provenance-encoding plugins; TLC validates every recorded "
         "history against the spec (LineageTrace.tla: returned provenance, one-to-one correspondence real key <-> lineage value, "
         "invariants after every event). Key stability across hash seeds and insertion orders is tested in child processes on every "
         "lineage reached and on container-valued options.",
-   note="Trusted: TLC; harness plugins whose output encodes (class name+version, effective tracked option, input provenance). Fuzzy "
-        "matching and child/shared options are not yet modelled. Hash-seed independence is decided by the conformance step, not TLC.",
+   note="Trusted: TLC; harness plugins whose output encodes (class name+version, effective tracked option, input provenance). "
+        "Child options and options shared between plugins are not modelled (every option belongs to one plugin). Hash-seed independence is decided by the conformance step, not TLC.",
    technique="TLA+ model checking over histories + TLC trace validation of histories executed on real Contexts",
    design="4/C02"),
  "C03": dict(
